@@ -835,4 +835,229 @@ theorem simplex_value_is_f (f : Vec Rat → Rat) (s : Simplex Rat) (h : Honest f
           exact he _
   · exact h
 
+
+/-! ## Cholesky factor of CMSA and ElitistCMA: the covariance stays symmetric positive definite -/
+
+/-- what `cholColumn` returns for column `j`: the new diagonal entry is `sqrt` of a positive number, lengths are kept -/
+theorem cholColumn_spec (F : Fns Rat) (hsqrt : ∀ x : Rat, 0 < x → 0 < F.sqrt x) (a beta : Rat) (j : Nat) (col temp : Vec Rat) (bp : Rat)
+    (col' temp' : Vec Rat) (bp' : Rat) (n : Nat) (hj : j < n) (hc : n ≤ col.length) (ht : n ≤ temp.length)
+    (h : cholColumn F a beta j col temp bp = some (col', temp', bp')) :
+    0 < Vec.get col' j ∧ n ≤ col'.length ∧ n ≤ temp'.length := by
+  unfold cholColumn at h
+  simp only at h
+  split at h
+  · cases h
+  · next hx =>
+    simp only [Option.some.injEq, Prod.mk.injEq] at h
+    obtain ⟨rfl, rfl, _⟩ := h
+    have hx' := not_le.mp hx
+    refine ⟨?_, by simp; omega, by simp; omega⟩
+    unfold Vec.get
+    have hjl : j < (List.zip col temp).length := by simp; omega
+    simp only [List.getD_eq_getElem?_getD, List.getElem?_map, List.getElem?_zipIdx, List.getElem?_eq_getElem hjl]
+    simp only [Option.map_some, zero_add, lt_irrefl, if_false, if_true, Option.getD_some]
+    exact hsqrt _ hx'
+
+theorem cholCols_diag (F : Fns Rat) (hsqrt : ∀ x : Rat, 0 < x → 0 < F.sqrt x) (a beta : Rat) (n : Nat) :
+    ∀ (cols : List (Vec Rat)) (j : Nat) (temp : Vec Rat) (bp : Rat) (cs : List (Vec Rat)),
+      j + cols.length ≤ n → (∀ c ∈ cols, n ≤ c.length) → n ≤ temp.length →
+      cholCols F a beta j cols temp bp = some cs →
+      cs.length = cols.length ∧ ∀ k, k < cs.length → 0 < Vec.get (cs.getD k []) (j + k) := by
+  intro cols
+  induction cols with
+  | nil =>
+    intro j temp bp cs _ _ _ h
+    simp only [cholCols, Option.some.injEq] at h
+    subst h; exact ⟨rfl, fun k hk => absurd hk (by simp)⟩
+  | cons col rest ih =>
+    intro j temp bp cs hjn hcols ht h
+    simp only [cholCols] at h
+    split at h
+    · cases h
+    · next col' temp' bp' hcol =>
+      split at h
+      · cases h
+      · next cs' hrec =>
+        simp only [Option.some.injEq] at h
+        subst h
+        have hlen : (col :: rest).length = rest.length + 1 := rfl
+        obtain ⟨hd, _, ht'⟩ := cholColumn_spec F hsqrt a beta j col temp bp col' temp' bp' n (by omega) (hcols col (by simp)) ht hcol
+        obtain ⟨hl, hk⟩ := ih (j + 1) temp' bp' cs' (by omega) (fun c hc => hcols c (by simp [hc])) ht' hrec
+        refine ⟨by simp [hl], ?_⟩
+        intro k hk'
+        cases k with
+        | zero => simpa using hd
+        | succ k =>
+          have := hk k (by simpa using hk')
+          have e : j + (k + 1) = j + 1 + k := by omega
+          rw [e]; simpa using this
+
+/-- the lower factor has a positive diagonal (then `L Lᵀ` is symmetric positive definite) -/
+def DiagPos (cols : List (Vec Rat)) : Prop := ∀ k, k < cols.length → 0 < Vec.get (cols.getD k []) k
+
+/-- **cholUpdate_diag_pos**: whenever the rank-one update `L Lᵀ ← alpha·L Lᵀ + beta·v vᵀ` of the C++ completes (it throws
+when a pivot is not positive), the new factor has a positive diagonal again — for every `alpha > 0`, every `beta` (positive,
+zero or negative: the active update) and every `v`. -/
+theorem cholUpdate_diag_pos (F : Fns Rat) (hsqrt : ∀ x : Rat, 0 < x → 0 < F.sqrt x) (alpha beta : Rat) (halpha : 0 < alpha)
+    (v : Vec Rat) (cols cs : List (Vec Rat)) (n : Nat) (hn : cols.length = n) (hc : ∀ c ∈ cols, n ≤ c.length)
+    (hv : beta ≠ 0 → n ≤ v.length) (hd : DiagPos cols) (h : cholUpdate F alpha beta v cols = some cs) :
+    cs.length = n ∧ DiagPos cs := by
+  unfold cholUpdate at h
+  split at h
+  · simp only [Option.some.injEq] at h
+    subst h
+    refine ⟨by simp [hn], ?_⟩
+    intro k hk
+    have hk' : k < cols.length := by simpa using hk
+    have := hd k hk'
+    unfold Vec.get at *
+    simp only [List.getD_eq_getElem?_getD, List.getElem?_map, List.getElem?_eq_getElem hk', Option.map_some, Option.getD_some] at *
+    have hkc : k < (cols[k]).length := by have := hc cols[k] (List.getElem_mem hk'); omega
+    simp only [List.getElem?_eq_getElem hkc, Option.map_some, Option.getD_some] at *
+    exact mul_pos this (hsqrt _ halpha)
+  · next hb =>
+    have hb' : beta ≠ 0 := by
+      intro e; apply hb; subst e; unfold Scalar.beq; simp
+    obtain ⟨hl, hk⟩ := cholCols_diag F hsqrt (F.sqrt alpha) beta n cols 0 v Scalar.one cs (by omega) hc (hv hb') h
+    refine ⟨by omega, ?_⟩
+    intro k hk'
+    simpa using hk k hk'
+
+/-- a well-formed lower factor of dimension `n` with positive diagonal -/
+def ValidFactor (n : Nat) (cols : List (Vec Rat)) : Prop := cols.length = n ∧ (∀ c ∈ cols, n ≤ c.length) ∧ DiagPos cols
+
+theorem cholUpdate_valid (F : Fns Rat) (hsqrt : ∀ x : Rat, 0 < x → 0 < F.sqrt x) (alpha beta : Rat) (halpha : 0 < alpha)
+    (v : Vec Rat) (cols cs : List (Vec Rat)) (n : Nat) (hV : ValidFactor n cols) (hv : beta ≠ 0 → n ≤ v.length)
+    (h : cholUpdate F alpha beta v cols = some cs) : ValidFactor n cs := by
+  obtain ⟨hn, hc, hd⟩ := hV
+  obtain ⟨h1, h2⟩ := cholUpdate_diag_pos F hsqrt alpha beta halpha v cols cs n hn hc hv hd h
+  refine ⟨h1, ?_, h2⟩
+  -- column lengths: every returned column is at least as long as n
+  unfold cholUpdate at h
+  split at h
+  · simp only [Option.some.injEq] at h; subst h
+    intro c hcm
+    obtain ⟨c0, hc0, rfl⟩ := List.mem_map.mp hcm
+    simpa using hc c0 hc0
+  · next hb =>
+    have hb' : beta ≠ 0 := by
+      intro e; apply hb; subst e; unfold Scalar.beq; simp
+    have key : ∀ (cols : List (Vec Rat)) (j : Nat) (temp : Vec Rat) (bp : Rat) (cs : List (Vec Rat)),
+        j + cols.length ≤ n → (∀ c ∈ cols, n ≤ c.length) → n ≤ temp.length →
+        cholCols F (F.sqrt alpha) beta j cols temp bp = some cs → ∀ c ∈ cs, n ≤ c.length := by
+      intro cols
+      induction cols with
+      | nil => intro j temp bp cs _ _ _ h; simp only [cholCols, Option.some.injEq] at h; subst h; simp
+      | cons col rest ih =>
+        intro j temp bp cs hjn hcols ht h
+        simp only [cholCols] at h
+        split at h
+        · cases h
+        · next col' temp' bp' hcol =>
+          split at h
+          · cases h
+          · next cs' hrec =>
+            simp only [Option.some.injEq] at h; subst h
+            have hlen : (col :: rest).length = rest.length + 1 := rfl
+            obtain ⟨_, hcl, ht'⟩ := cholColumn_spec F hsqrt _ beta j col temp bp col' temp' bp' n (by omega) (hcols col (by simp)) ht hcol
+            intro c hcm
+            rcases List.mem_cons.mp hcm with rfl | hcm
+            · exact hcl
+            · exact ih (j + 1) temp' bp' cs' (by omega) (fun c hc => hcols c (by simp [hc])) ht' hrec c hcm
+    exact key cols 0 v Scalar.one cs (by omega) hc (hv hb') h
+
+/-- **cmsa_factor_valid**: `CMSA::updatePopulation` keeps a valid Cholesky factor (covariance symmetric positive definite)
+whenever it completes: shrink by `1 − 1/c_C > 0`, then `μ` rank-one updates with non-negative weight -/
+theorem cmsa_factor_valid (F : Fns Rat) (hsqrt : ∀ x : Rat, 0 < x → 0 < F.sqrt x) (cC : Rat) (hcC : 1 < cC) (n mu : Nat)
+    (s s' : Cmsa Rat) (sel : List (CmsaInd Rat)) (hsel : ∀ i ∈ sel, n ≤ i.step.length) (hV : ValidFactor n s.L)
+    (h : cmsaUpdate F cC n mu s sel = some s') : ValidFactor n s'.L := by
+  unfold cmsaUpdate at h
+  simp only [Option.map_eq_some_iff] at h
+  obtain ⟨L, hL, rfl⟩ := h
+  show ValidFactor n L
+  have h0 : 0 < cC := by linarith
+  have ha : (0 : Rat) < Scalar.one - Scalar.one / cC := by
+    simp only [sone_rat]
+    have : 1 / cC < 1 := by rw [div_lt_one h0]; exact hcC
+    linarith
+  have key : ∀ (l : List (CmsaInd Rat)) (acc : Option (List (Vec Rat))) (L : List (Vec Rat)),
+      (∀ i ∈ l, n ≤ i.step.length) → (∀ A, acc = some A → ValidFactor n A) →
+      l.foldl (fun (acc : Option (List (Vec Rat))) i => acc.bind fun L => cholUpdate F Scalar.one (Scalar.one / ofNat mu * Scalar.one / cC) i.step L) acc = some L →
+      ValidFactor n L := by
+    intro l
+    induction l with
+    | nil => intro acc L _ hacc h; exact hacc L h
+    | cons x xs ih =>
+      intro acc L hl hacc h
+      simp only [List.foldl_cons] at h
+      refine ih _ L (fun i hi => hl i (by simp [hi])) ?_ h
+      intro A hA
+      cases acc with
+      | none => simp at hA
+      | some A0 =>
+        simp only [Option.bind_some] at hA
+        exact cholUpdate_valid F hsqrt _ _ (by simp) x.step A0 A n (hacc A0 rfl) (fun _ => hl x (by simp)) hA
+  refine key sel _ L hsel ?_ hL
+  intro A hA
+  exact cholUpdate_valid F hsqrt _ _ ha [] s.L A n hV (fun hb => absurd rfl hb) hA
+
+theorem roundUpdate_valid (F : Fns Rat) (hsqrt : ∀ x : Rat, 0 < x → 0 < F.sqrt x) (k : EcmaConsts Rat)
+    (hcCov : 0 < k.cCov ∧ k.cCov < 1) (hcPath : 0 < k.cPath ∧ k.cPath ≤ 1) (n : Nat) (path : Vec Rat) (L : List (Vec Rat))
+    (pl : Vec Rat × List (Vec Rat)) (hp : n ≤ path.length) (hV : ValidFactor n L) (h : roundUpdate F k path L = some pl) :
+    ValidFactor n pl.2 ∧ n ≤ pl.1.length := by
+  unfold roundUpdate at h
+  simp only [Option.map_eq_some_iff] at h
+  obtain ⟨L', hL', rfl⟩ := h
+  have hw : (0 : Rat) ≤ k.cPath * (Scalar.two - k.cPath) := by
+    simp only [stwo_rat]; nlinarith [hcPath.1, hcPath.2]
+  refine ⟨cholUpdate_valid F hsqrt _ _ ?_ _ L L' n hV (fun _ => by simpa using hp) hL', by simpa using hp⟩
+  simp only [sone_rat]; linarith [hcCov.2]
+
+/-- **ecma_factor_valid**: whenever `ElitistCMA::step` completes, the Cholesky factor of the covariance is valid again
+(positive diagonal ⇒ covariance symmetric positive definite) — for the rank-one update after a success, the "round" update and
+the active (negative) update after a failure, with the learning rates in the ranges proved by `ecma_consts_admissible`. -/
+theorem ecma_factor_valid (F : Fns Rat) (hsqrt : ∀ x : Rat, 0 < x → 0 < F.sqrt x) (k : EcmaConsts Rat)
+    (hcCov : 0 < k.cCov ∧ k.cCov < 1) (hcPath : 0 < k.cPath ∧ k.cPath ≤ 1) (hcU : 0 < k.cUnlearn) (n : Nat)
+    (s s' : Ecma Rat) (y : Vec Rat) (zz fp fu : Rat) (hzz : 0 ≤ zz) (hy : n ≤ y.length) (hp : n ≤ s.path.length)
+    (hV : ValidFactor n s.L) (h : ecmaStep F k s y zz fp fu = some s') : ValidFactor n s'.L ∧ n ≤ s'.path.length := by
+  unfold ecmaStep at h
+  simp only at h
+  split at h
+  · simp only [Option.map_eq_some_iff] at h
+    obtain ⟨u, hu, rfl⟩ := h
+    show ValidFactor n u.L ∧ n ≤ u.path.length
+    unfold updateAsOffspring at hu
+    simp only [Option.map_eq_some_iff] at hu
+    obtain ⟨pl, hpl, rfl⟩ := hu
+    show ValidFactor n pl.2 ∧ n ≤ pl.1.length
+    split at hpl
+    · simp only [Option.map_eq_some_iff] at hpl
+      obtain ⟨L', hL', rfl⟩ := hpl
+      have hlen : n ≤ (List.zipWith (fun pi yi => pi * (Scalar.one - k.cPath) + F.sqrt (k.cPath * (Scalar.two - k.cPath)) * yi) s.path y).length := by
+        simp; omega
+      refine ⟨cholUpdate_valid F hsqrt _ _ ?_ _ s.L L' n hV (fun _ => hlen) hL', hlen⟩
+      simp only [sone_rat]; linarith [hcCov.2]
+    · exact roundUpdate_valid F hsqrt k hcCov hcPath n s.path s.L pl hp hV hpl
+  · next hne =>
+    simp only [Option.map_eq_some_iff] at h
+    obtain ⟨u, hu, rfl⟩ := h
+    show ValidFactor n u.L ∧ n ≤ u.path.length
+    unfold updateAsParent at hu
+    simp only at hu
+    split at hu
+    · cases hu; exact ⟨hV, hp⟩
+    · split at hu
+      · simp only [Option.map_eq_some_iff] at hu
+        obtain ⟨L', hL', rfl⟩ := hu
+        obtain ⟨hr, _⟩ := active_update_admissible k.cUnlearn zz hcU hzz
+        refine ⟨cholUpdate_valid F hsqrt _ _ ?_ y s.L L' n hV (fun _ => hy) hL', hp⟩
+        simp only [sone_rat]; linarith
+      · simp only [Option.map_eq_some_iff] at hu
+        obtain ⟨pl, hpl, rfl⟩ := hu
+        exact roundUpdate_valid F hsqrt k hcCov hcPath n s.path s.L pl hp hV hpl
+
+/-- non-vacuity: the identity factor is valid, and a rank-one update of it with the identity `sqrt` completes -/
+example : ValidFactor 1 [[1]] := ⟨rfl, by simp, by intro k hk; simp at hk; subst hk; simp [Vec.get]⟩
+example : cholUpdate idFns 1 1 [1] [[1]] = some [[2]] := by decide +kernel
+
 end SharkVerif.C11
